@@ -120,7 +120,9 @@ def r3_merge_and_removal(rep, ctx):
             # MAP1.get(<category>)[1] (the entry is known to exist on this path)
             return e[0] == "call" and e[1] == ("attr", MAP1, "get") and len(e[2]) >= 1 and entry_path(e[2][0]) == (MAP2, (0,))
 
-        left_ok = a0 is not None and all(x == ("const", 0) or left_exp(x) for x in alternatives(a0))
+        # (homogeneous: either the literal 0 of a category the left operand lacks, or the left entry's own
+        # exponent - a mix means a stale exponent of an earlier entry can reach this merge)
+        left_ok = a0 is not None and (all(x == ("const", 0) for x in alternatives(a0)) or all(left_exp(x) for x in alternatives(a0)))
         right_ok = a1 is not None and all(entry_path(x) == (MAP2, (1, 1)) for x in alternatives(a1))
         if a0 is not None and any(x == ("const", 0) for x in alternatives(a0)):
             zero_seen = True
